@@ -54,6 +54,9 @@ def main():
         f24 = False
         for k, (m, o) in enumerate(zip(c["h"], r["steps"])):
             census = sorted(o["live"])
+            if isinstance(o.get("first"), str) or o.get("error"):
+                bad = {"step": k, "action": m, "exception": o.get("first") if isinstance(o.get("first"), str) else o.get("error")}
+                break
             if m["a"] == "queryfirst" and (o.get("first") or 0) not in (m["first"] or [0]):
                 ctx.drift += 1      # which element comes first is an internal order, not part of the property
             if census == sorted(m["liveR"]):
@@ -67,7 +70,7 @@ def main():
                                        "census_last": r["steps"][-1]["live"], "liveR_last": c["h"][-1]["liveR"]})
         if bad:
             ctx.violation({"history": c["h"], **bad},
-                          note="an instance is alive (or dead) although neither the property nor the recorded finding explains it")
+                          note="an evaluation raised, or an instance is alive (or dead) although neither the property nor the recorded finding explains it")
         elif f24:
             ctx.known_finding("C20-F24", {"history": c["h"]})
     for c, r in list(zip(loop_cases, results[len(cases):])) + list(zip(onto_cases, onto_results)):
